@@ -1280,6 +1280,117 @@ def gen_attrs():
 GENERATORS["attrs"] = gen_attrs
 
 
+# ---------------------------------------------------------------------------------------------
+# CMap3::one_link / one_unlink (dim3/links/one.rs): the 1-links that keep 3-glued faces mirrored
+# ---------------------------------------------------------------------------------------------
+
+LINK3_RS = os.environ.get("GEN_LEAN_LINK3_RS", "/repo/honeycomb-core/src/cmap/dim3/links/one.rs")
+LINK3_OUT = os.path.join(os.path.dirname(os.path.dirname(os.path.abspath(__file__))), "lean", "Honeycomb", "Gen", "Links3.lean")
+CORE_CODE = {"one_link_core": 0, "two_link_core": 1, "three_link_core": 2, "one_unlink_core": 3, "two_unlink_core": 4, "three_unlink_core": 5}
+LINK_ERRS3 = dict(LINK_ERRS, AsymmetricalFaces=3)
+
+
+def link3_instrs(src, fname):
+    where = f"dim3/links/one.rs {fname}"
+    sig = "".join(fn_sig(src, fname).split())
+    params = re.findall(r"(\w+):DartIdType", sig)
+    need(params in (["ld", "rd"], ["ld"]), f"{where}: parameters {params}")
+    names = {p: k for k, p in enumerate(params)}
+    names["NULL_DART_ID"] = 2
+    nvars = [0]
+
+    def arg(tok):
+        need(tok in names, f"{where}: unknown name {tok!r}")
+        return names[tok]
+
+    def bind(name):
+        need(name not in names, f"{where}: {name} bound twice")
+        names[name] = 20 + nvars[0]
+        nvars[0] += 1
+
+    beta = r"self\.beta_transac::<(\d)>\(trans,(\w+)\)\?"
+
+    def block(body):
+        out, pos = [], 0
+        while pos < len(body):
+            m = re.compile(r"self\.betas\.(\w+_core)\(trans,(\w+)(?:,(\w+))?\)\?;").match(body, pos)
+            if m:
+                need(m.group(1) in CORE_CODE, f"{where}: unknown core {m.group(1)}")
+                two = CORE_CODE[m.group(1)] < 3
+                need((m.group(3) is not None) == two, f"{where}: arity of {m.group(1)}")
+                out.append((0, [CORE_CODE[m.group(1)], arg(m.group(2)), arg(m.group(3)) if two else 2]))
+                pos = m.end()
+                continue
+            m = re.compile(r"let(\w+)=" + beta + ";").match(body, pos)
+            if m:
+                out.append((1, [int(m.group(2)), arg(m.group(3))]))
+                bind(m.group(1))
+                pos = m.end()
+                continue
+            m = re.compile(r"let\((\w+),(\w+)\)=\(" + beta + "," + beta + r",?\);").match(body, pos)
+            if m:
+                a1, a2 = arg(m.group(4)), arg(m.group(6))      # both right-hand sides are evaluated before either name is bound
+                out.append((1, [int(m.group(3)), a1]))
+                out.append((1, [int(m.group(5)), a2]))
+                bind(m.group(1))
+                bind(m.group(2))
+                pos = m.end()
+                continue
+            m = re.compile(r"if(\w+)!=NULL_DART_ID&&(\w+)!=NULL_DART_ID\{").match(body, pos)
+            if m:
+                inner, end = block_after(body, m.end() - 1, where)
+                sub = block(inner)
+                out.append((2, [arg(m.group(1)), arg(m.group(2)), len(sub)]))
+                out += sub
+                pos = end
+                continue
+            m = re.compile(r"if" + beta + r"!=(\w+)\{abort\(LinkError::(\w+)\(([\w,]*)\)\)\?;\}").match(body, pos)
+            if m:
+                need(m.group(4) in LINK_ERRS3, f"{where}: unknown LinkError::{m.group(4)}")
+                out.append((3, [int(m.group(1)), arg(m.group(2)), arg(m.group(3)), LINK_ERRS3[m.group(4)]] +
+                            [arg(a) for a in m.group(5).split(",") if a]))
+                pos = m.end()
+                continue
+            m = re.compile(r"Ok\(\(\)\)$").match(body, pos)
+            if m:
+                pos = m.end()
+                continue
+            raise Shape(f"{where}: statement not recognised at {body[pos:pos + 80]!r}")
+        return out
+
+    body = "".join(fn_body(src, fname).split())
+    need(body.endswith("Ok(())"), f"{where}: does not end with Ok(())")
+    return block(body)
+
+
+def gen_links3():
+    src = strip_comments(open(LINK3_RS).read())
+    fns = [(f, link3_instrs(src, f)) for f in ("one_link", "one_unlink")]
+    out = ["/-\n  GENERATED by /verif/tools/gen_lean.py from\n  /repo/honeycomb-core/src/cmap/dim3/links/one.rs — DO NOT EDIT.\n"
+           "  Regenerated by tools/check.py before every build of a module that imports it.\n\n"
+           "  `CMap3::one_link(ld, rd)` / `CMap3::one_unlink(ld)` as (opcode, operands):\n"
+           "    (0, [f, a, b])        self.betas.<f>(trans, a, b)?   f: 0..2 = one/two/three_link_core, 3..5 = one/two/three_unlink_core (b unused)\n"
+           "    (1, [i, a])           let x = self.beta_transac::<i>(trans, a)?      (binds the next variable; a tuple `let` is two of these,\n"
+           "                          both right-hand sides evaluated with the names bound BEFORE it)\n"
+           "    (2, [a, b, n])        if a != NULL_DART_ID && b != NULL_DART_ID { the next n instructions }\n"
+           "    (3, [i, a, b, k, e…]) if self.beta_transac::<i>(trans, a)? != b { abort(LinkError::k(e…))?; }\n"
+           "  operands: 0 = ld, 1 = rd (parameter), 2 = NULL_DART_ID, 20 + j = the j-th bound variable; k: 3 = AsymmetricalFaces.\n"
+           "  Props/C02Gen.lean interprets these lists and proves them EQUAL to `oneLink3` / `oneUnlink3` of Model/Ops3.lean.\n-/\n",
+           "namespace HC.Gen\n"]
+    for f, ins in fns:
+        camel = re.sub(r"_(\w)", lambda m: m.group(1).upper(), f) + "3"
+        out.append(f"/-- `CMap3::{f}` -/\ndef {camel} : List (Nat × List Nat) := [" +
+                   ", ".join(f"({op}, [{', '.join(map(str, a))}])" for op, a in ins) + "]\n")
+    out.append("end HC.Gen\n")
+    txt = "\n".join(out)
+    if not os.path.exists(LINK3_OUT) or open(LINK3_OUT).read() != txt:
+        open(LINK3_OUT, "w").write(txt)
+    return f"gen_lean: links3 ok ({sum(len(i) for _, i in fns)} instructions)"
+
+
+GENERATORS["links3"] = gen_links3
+
+
 def run(names):
     """returns (ok, log)"""
     logs, ok = [], True
